@@ -21,7 +21,7 @@ struct RecLedger {
     int allocated = 0, released = 0;
     std::string err;
     void reset() { live.clear(); allocated = released = 0; err.clear(); }
-    void drain() { for ( void* p : quarantine ) ::operator delete( p ); quarantine.clear(); }
+    void drain() { cds_verif::regions_reset(); for ( void* p : quarantine ) ::operator delete( p ); quarantine.clear(); }
 };
 RecLedger g_led;
 
